@@ -306,6 +306,68 @@ func runC05(c C05Case) (res c05result) {
 	if n != c.NMsgs {
 		return c05result{Fail: fmt.Sprintf("the witness subscribed to '#' received %d of the %d witness messages", n, c.NMsgs)}
 	}
+	// (5) the broker still serves what the witnesses had not used while the attackers were at work:
+	// a new connection, a new subscription, a retained publish, the retained copy for a later subscriber
+	late := func(name string, wantRetained bool) *c05result {
+		L := b.Dial(name)
+		if _, err := L.Connect(wire.ConnectPacket(name, true, 300)); err != nil {
+			return &c05result{Fail: fmt.Sprintf("after the attack a new client (%s) cannot connect: %v", name, err)}
+		}
+		L.Send(&codec.Packet{Type: codec.SUBSCRIBE, PacketID: 1, Topics: [][]byte{[]byte("late/#")}, QoSs: []byte{1}})
+		rx, err := L.Barrier()
+		if err != nil {
+			if err == wire.ErrTimeout {
+				r := c05hang(res, fmt.Sprintf("after the attack a new client (%s) that sent a SUBSCRIBE got neither SUBACK nor PINGRESP", name))
+				return &r
+			}
+			return &c05result{Fail: fmt.Sprintf("after the attack a new client's (%s) connection was closed by the broker after its SUBSCRIBE: %v", name, err)}
+		}
+		nack, nret := 0, 0
+		for _, r := range rx {
+			switch {
+			case r.P.Type == codec.SUBACK && r.P.PacketID == 1:
+				nack++
+			case r.P.Type == codec.PUBLISH && string(r.P.Topic) == "late/r" && r.P.Retain && string(r.P.Payload) == "kept":
+				nret++
+			}
+		}
+		if nack != 1 {
+			return &c05result{Fail: fmt.Sprintf("after the attack a new client's (%s) SUBSCRIBE was answered by %d SUBACKs", name, nack)}
+		}
+		if wantRetained && nret != 1 {
+			return &c05result{Fail: fmt.Sprintf("after the attack a witness published a retained message on late/r; a new subscriber of late/# received %d retained copies of it", nret)}
+		}
+		if !wantRetained {
+			Wp.Send(&codec.Packet{Type: codec.PUBLISH, Retain: true, Topic: []byte("late/r"), Payload: []byte("kept")})
+			if _, err := Wp.Barrier(); err != nil {
+				if err == wire.ErrTimeout {
+					r := c05hang(res, "after the attack the witness publisher sent a retained PUBLISH and got no PINGRESP any more")
+					return &r
+				}
+				return &c05result{Fail: fmt.Sprintf("after the attack the witness publisher's connection was closed by the broker after a retained PUBLISH: %v", err)}
+			}
+			rx, err := L.Barrier()
+			if err != nil {
+				return &c05result{Fail: fmt.Sprintf("after the attack the new subscriber's connection broke: %v", err)}
+			}
+			live := 0
+			for _, r := range rx {
+				if r.P.Type == codec.PUBLISH && string(r.P.Topic) == "late/r" && string(r.P.Payload) == "kept" {
+					live++
+				}
+			}
+			if live != 1 {
+				return &c05result{Fail: fmt.Sprintf("after the attack a witness published on late/r; the new subscriber of late/# received %d copies", live)}
+			}
+		}
+		return nil
+	}
+	if r := late("late1", false); r != nil {
+		return *r
+	}
+	if r := late("late2", true); r != nil {
+		return *r
+	}
 	return res
 }
 
@@ -353,6 +415,12 @@ func genAttacker(t *rapid.T, c *C05Case, ai int) Attacker {
 			cp.WillMessage = bytes.Repeat([]byte{'w'}, ws)
 			a.BigWill = ws
 		}
+		if rapid.IntRange(0, 3).Draw(t, "willretain") == 0 {
+			cp.ConnectFlags |= 32
+			if a.BigWill == 0 && rapid.Bool().Draw(t, "willempty") {
+				cp.WillMessage = []byte{}
+			}
+		}
 	}
 	pk = append(pk, codec.Encode(cp))
 	a.ToWitness = rapid.Bool().Draw(t, "to-witness")
@@ -363,7 +431,7 @@ func genAttacker(t *rapid.T, c *C05Case, ai int) Attacker {
 	pk = append(pk, codec.Encode(&codec.Packet{Type: codec.SUBSCRIBE, PacketID: 1, Topics: [][]byte{[]byte(filter)}, QoSs: []byte{byte(rapid.IntRange(0, 2).Draw(t, "sq"))}}))
 	for i, n := 0, rapid.IntRange(0, 5).Draw(t, "npubs"); i < n; i++ {
 		q := byte(rapid.IntRange(0, 2).Draw(t, "pq"))
-		pp := &codec.Packet{Type: codec.PUBLISH, QoS: q, Topic: []byte("att/t"), Payload: bytes.Repeat([]byte{'a'}, rapid.SampledFrom([]int{0, 5, 100, 3000}).Draw(t, "psize"))}
+		pp := &codec.Packet{Type: codec.PUBLISH, QoS: q, Retain: rapid.IntRange(0, 2).Draw(t, "retain") == 0, Topic: []byte(rapid.SampledFrom([]string{"att/t", "att/t", "att/r", "att"}).Draw(t, "ptopic")), Payload: bytes.Repeat([]byte{'a'}, rapid.SampledFrom([]int{0, 0, 5, 100, 3000}).Draw(t, "psize"))}
 		if q > 0 {
 			pp.PacketID = uint16(10 + i)
 		}
